@@ -25,6 +25,11 @@ def run(ctx):
             c['inputs'][0]['fail_at'] = o; c['inputs'][0]['interrupts'] = rnd.choice([0, 0, 1, 3])
             c['inputs'][0]['chunking'] = [rnd.randint(1, 7) for _ in range(40)]
             cases.append(c); meta[c['id']] = ('read', cfg, data, o)
+    # write failures inside the last record admitted by --take (the limiter must not drop the error)
+    for i in range(n):
+        cfg = gen.pipeline_cfg(rnd, want_limit=True, allow_group=rnd.random() < 0.3); cfg['take'] = rnd.choice([1, 2, 3]); cfg['on_error'] = 'ignore'
+        vals = [gen.record(rnd) for _ in range(6)]
+        c = mkcase('F%d' % (n + i), cfg, gen.stream(vals, rnd)); cases.append(c); meta[c['id']] = ('free', cfg, c['inputs'][0]['data'], None)
     def proj(c, r, side):
         out = r['stdout']; err = r['stderr']
         if side == 'impl': out = lib.canon_errlines(out); err = lib.canon_errlines(err)
